@@ -12,6 +12,7 @@ mod c12;
 mod c14;
 mod c15;
 mod c16;
+mod c19;
 mod check;
 mod conc;
 mod cuts;
@@ -45,27 +46,71 @@ fn usage() -> ! {
     std::process::exit(2);
 }
 
-/// Debugging aid: Krill's log output on stderr (VERIF_KRILL_LOG=<level>).
-struct StderrLog;
+/// Krill's log output: printed on stderr for debugging
+/// (VERIF_KRILL_LOG=<level>) and/or captured for the C19 oracle, which
+/// derives the outcome of every synchronisation attempt from it.
+struct KrillLog;
 
-impl log::Log for StderrLog {
+pub static LOG_CAPTURE: std::sync::atomic::AtomicBool
+    = std::sync::atomic::AtomicBool::new(false);
+static LOG_PRINT: std::sync::atomic::AtomicBool
+    = std::sync::atomic::AtomicBool::new(false);
+pub static LOG_LINES: std::sync::Mutex<Vec<String>>
+    = std::sync::Mutex::new(Vec::new());
+
+impl log::Log for KrillLog {
     fn enabled(&self, meta: &log::Metadata) -> bool {
         meta.target().starts_with("krill")
     }
     fn log(&self, record: &log::Record) {
-        if self.enabled(record.metadata()) {
+        use std::sync::atomic::Ordering;
+        if !self.enabled(record.metadata()) {
+            return
+        }
+        if LOG_PRINT.load(Ordering::Relaxed) {
             eprintln!("    LOG {} {}", record.level(), record.args());
+        }
+        if LOG_CAPTURE.load(Ordering::Relaxed)
+            && record.level() <= log::Level::Info
+        {
+            let mut lines = LOG_LINES.lock().unwrap_or_else(|e| e.into_inner());
+            if lines.len() < 20_000 {
+                lines.push(format!("{} {}", record.level(), record.args()));
+            }
         }
     }
     fn flush(&self) { }
 }
 
+/// Starts (or stops) capturing Krill's log lines of level info and above.
+pub fn capture_logs(on: bool) {
+    use std::sync::atomic::Ordering;
+    LOG_CAPTURE.store(on, Ordering::SeqCst);
+    LOG_LINES.lock().unwrap_or_else(|e| e.into_inner()).clear();
+    if on {
+        if log::max_level() < log::LevelFilter::Info {
+            log::set_max_level(log::LevelFilter::Info);
+        }
+    }
+    else if !LOG_PRINT.load(Ordering::Relaxed) {
+        log::set_max_level(log::LevelFilter::Off);
+    }
+}
+
+pub fn drain_logs() -> Vec<String> {
+    std::mem::take(&mut *LOG_LINES.lock().unwrap_or_else(|e| e.into_inner()))
+}
+
 fn main() {
     world::install_panic_hook();
+    {
+        static LOGGER: KrillLog = KrillLog;
+        let _ = log::set_logger(&LOGGER);
+        log::set_max_level(log::LevelFilter::Off);
+    }
     if let Ok(level) = std::env::var("VERIF_KRILL_LOG") {
         if let Ok(level) = level.parse::<log::LevelFilter>() {
-            static LOGGER: StderrLog = StderrLog;
-            let _ = log::set_logger(&LOGGER);
+            LOG_PRINT.store(true, std::sync::atomic::Ordering::SeqCst);
             log::set_max_level(level);
         }
     }
